@@ -922,8 +922,9 @@ impl Default for TypeModifier {
 }
 
 impl ObjectType {
-    pub fn get_register_type(&self) -> RegisterType {
-        match self {
+    /// Get the register class a resource of this type binds to - or None if the type is not a resource
+    pub fn get_register_type(&self) -> Option<RegisterType> {
+        Some(match self {
             ObjectType::Buffer(_)
             | ObjectType::ByteAddressBuffer
             | ObjectType::BufferAddress
@@ -955,10 +956,8 @@ impl ObjectType {
             | ObjectType::Texture3DMipsSlice(_)
             | ObjectType::TriangleStream(_)
             | ObjectType::RayQuery(_)
-            | ObjectType::RayDesc => {
-                panic!("get_register_type called on non-root object types")
-            }
-        }
+            | ObjectType::RayDesc => return None,
+        })
     }
 }
 
